@@ -477,7 +477,7 @@ def implies(a, b):
 
 
 # ---------------------------------------------------------------------------- base text generator
-def gen_geom_items(rng, depth, cells=True):
+def gen_geom_items(rng, depth, cells=True, cap=60):
     """-> list of token texts, grammar expr/term/factor with redundant parentheses"""
     def leaf():
         if cells and rng.random() < 0.1:
@@ -508,7 +508,7 @@ def gen_geom_items(rng, depth, cells=True):
 
     for _ in range(50):
         it = expr(depth)
-        if len(it) <= 60:
+        if len(it) <= cap:
             return it
         depth = max(0, depth - 1)
     return it
@@ -775,6 +775,18 @@ def make_case(rng, stream, boost=0):
         return {"stream": stream, "base_lines": None, "prog": gen_prog(rng, d, False, False)}
     if stream == "scratch-setters":
         return {"stream": stream, "base_lines": None, "prog": gen_prog(rng, rng.choice([2, 3, 4]), False, True)}
+    if stream == "deep":                   # thorough tier: nesting up to 40, several hundred tokens, long programs
+        d = rng.choice([6, 8, 12, 20, 40])
+        base = gen_geom_items(rng, d, cap=400) if rng.random() < 0.7 else None
+        # nest further: wrap the expression in alternating parentheses / complements / unions
+        if base is not None:
+            for _ in range(rng.randint(0, d)):
+                r = rng.random()
+                base = (["("] + base + [")"]) if r < 0.4 else (["#("] + base + [")"]) if r < 0.6 else \
+                       (["("] + base + [":", str(rng.randint(1, N_SURF)), ")"]) if r < 0.8 else \
+                       (["-%d" % rng.randint(1, N_SURF), "("] + base + [")"])
+        pr = gen_prog(rng, rng.choice([2, 4, 6, 8]), base is not None, rng.random() < 0.5)
+        return {"stream": stream, "base_lines": render_geom(rng, base, glue=0.3, breaks=0.05) if base else None, "prog": pr}
     items = gen_geom_items(rng, rng.choice([0, 1, 2, 2, 3, 3, 4]) + (rng.randint(0, boost) if boost else 0))
     if stream == "unedited":
         return {"stream": stream, "base_lines": render_geom(rng, items, glue=0.5), "prog": None}
@@ -944,7 +956,10 @@ def run(ctx):
              "unedited": 700 if quick else 15000, "edited": 1000 if quick else 25000,
              "edited-setters": 500 if quick else 10000, "glued-setters": 300 if quick else 6000,
              "layout-setters": 500 if quick else 10000, "alias": 300 if quick else 6000,
-             "shortcut": 40 if quick else 800, "shortcut-edited": 60 if quick else 1200}
+             "shortcut": 40 if quick else 800, "shortcut-edited": 60 if quick else 1200,
+             "deep": 30 if quick else 6000}
+    if not quick:
+        sizes = {k: int(v * 2) for k, v in sizes.items()}
     depth_boost = 0 if quick else 2
     # Gen/Grammar.v from the SLY grammars of the tree under test: C02_grammar_skeleton / C02_padding_skeleton and
     # C02_grammar_sound are stated over its cell_productions
